@@ -357,9 +357,9 @@ func init() {
 			e.envState[key] = u
 			return u
 		},
-		"(time.Time).IsZero":   func(e *Exec, fn *ssa.Function, a []Value) Value { return e.ts.Eq(timeExt(e, a[0]), e.ts.Const(64, 0)) },
-		"(time.Time).UTC":      func(e *Exec, fn *ssa.Function, a []Value) Value { return mkTime(e, timeExt(e, a[0])) },
-		"(time.Time).Local":    func(e *Exec, fn *ssa.Function, a []Value) Value { return mkLocalTime(e, timeExt(e, a[0])) },
+		"(time.Time).IsZero": func(e *Exec, fn *ssa.Function, a []Value) Value { return e.ts.Eq(timeExt(e, a[0]), e.ts.Const(64, 0)) },
+		"(time.Time).UTC":    func(e *Exec, fn *ssa.Function, a []Value) Value { return mkTime(e, timeExt(e, a[0])) },
+		"(time.Time).Local":  func(e *Exec, fn *ssa.Function, a []Value) Value { return mkLocalTime(e, timeExt(e, a[0])) },
 		"(time.Time).AppendFormat": func(e *Exec, fn *ssa.Function, a []Value) Value {
 			str := inTimeFormat(e, fn, []Value{a[0], a[2]})
 			return e.doAppend(a[1], str, fn.Signature.Params().At(0).Type())
